@@ -272,7 +272,9 @@ CheckStmt(s) ==
          /\ env' = BindIn(e1, s.n, s.t, FALSE) /\ ctl' = c1 /\ UNCHANGED <<pid, fi, done>>
     [] s.k = "assign" ->
          LET t == TypeOf(s.v, env) IN
-         /\ errs' = IF ~Bound(env, s.n) THEN Err("undefined: " \o s.n)
+         /\ errs' = IF s.n = "_" THEN (IF IsErr(t) THEN Err(t.why) ELSE IF t.k = "void" THEN Err("void used as value")
+                                        ELSE IF t.k = "untyped" /\ t.c = "nil" THEN Err("use of untyped nil in assignment") ELSE errs)
+                    ELSE IF ~Bound(env, s.n) THEN Err("undefined: " \o s.n)
                     ELSE IF IsErr(t) THEN Err(t.why)
                     ELSE IF t.k = "void" THEN Err("void used as value")
                     ELSE IF ~Assignable(t, Cell(env, s.n).t) THEN Err("cannot use value in assignment to " \o s.n)
